@@ -754,7 +754,8 @@ def fixed_outcome_scenarios(base, uniq=False, max_full=5):
 
 
 BIG_PATTERNS = ("split-nested", "fanin-in-split", "-m3-", "-m4-", "fj3-tail", "fj-two-level", "items-n4", "items-n3-knone",
-                "items-n3-k4")
+                "items-n3-k4", "-l2", "-tail", "two-joins", "cleanup-par", "fanin-remediated", "-j1-", "split-2",
+                "decide-merge", "fanin-parallel-edges")
 
 
 def is_big(s):
@@ -1005,3 +1006,11 @@ def c20_pairs(tier):
                                      "input": {"m": "<% item() %>"}}}}
         out.append(("with-%d" % len(out), mk(w), mk({"items": w})))
     return out
+
+
+def f3_dev(s, tier):
+    """Deviation bound for a repository fixture (bigger fixtures get a smaller bound)."""
+    n = len(s.wf["tasks"])
+    if tier == "quick":
+        return 2 if n <= 5 else 1
+    return 3 if n <= 6 else 2
